@@ -79,6 +79,7 @@ Inductive payload :=
 | PItems (items : list item) (count : nat) (lek : item)
 | PDesc (d : desc)
 | PBatchWrite (unproc : fmap (list wreq))
+| PAlt (errs : list errclass)      (* an error whose class depends on Go's map iteration order: any of these *)
 | PBatchGet (resp : fmap (list item)) (unproc : fmap (list item)).
 
 Record obs := { o_res : res; o_pay : payload; o_fired : list nat }.
@@ -335,7 +336,13 @@ Definition delete_item (c : client) (table : str) (key : item) (cond : option st
       match t_delete lang_match (ctx_of c) t key cond names vals with
       | (t', Ok (old, f)) =>
           (set_table c t',
-           ok_obs (if return_old then PItem (out_item flavour (match old with Some i => i | None => [] end)) else PNone) f)
+           ok_obs (if return_old
+                   then match old, flavour with
+                        | Some i, _ => PItem (out_item flavour i)
+                        | None, V2 => PItem []
+                        | None, V1 => PNone         (* the v1 mapper keeps a nil map nil *)
+                        end
+                   else PNone) f)
       | (_, Err e) => (c, err_obs e)
       | (_, Panic p) => (c, panic_obs p)
       | (_, OutOfFuel) => (c, fuel_obs)
@@ -442,14 +449,35 @@ Fixpoint batch_write_tables (c : client) (ts : list (str * list wreq)) (un : fma
       end
   end.
 
+(* validateBatchWriteRequests: the first invalid request of every table (tables are visited in map order) *)
+Definition prevalidate_table (c : client) (tr : str * list wreq) : list errclass :=
+  match lookup (fst tr) (c_tables c) with
+  | None => [NotFound]
+  | Some t =>
+      if forallb (fun r => match r with
+                           | WPut i | WBoth i _ =>
+                               match get_key (t_ks t) (t_defs t) i with
+                               | inl _ => false
+                               | inr _ => validate_index_keys (t_defs t) (t_indexes t) i
+                               end
+                           | WDelete k => match get_key (t_ks t) (t_defs t) k with inl _ => false | inr _ => true end
+                           | WNeither => true
+                           end) (snd tr)
+      then [] else [Validation]
+  end.
+
 Definition batch_write (c : client) (reqs : fmap (list wreq)) : client * obs :=
   let all := flat_map snd reqs in
   if negb (forallb wreq_ok all) then (c, err_obs Validation)
   else if Nat.ltb batch_limit (List.length all) then (c, err_obs Validation)
-  else match batch_write_tables c reqs [] with
+  else match (match c_failure c with Some _ => [] | None => flat_map (prevalidate_table c) reqs end) with
+  | e :: es => (c, {| o_res := RErr e; o_pay := PAlt (e :: es); o_fired := [] |})
+  | [] =>
+       match batch_write_tables c reqs [] with
        | (c', un, None) => (c', ok_obs (PBatchWrite un) [])
        | (c', _, Some o) => (c', {| o_res := o_res o; o_pay := PNone; o_fired := [] |})
-       end.
+       end
+  end.
 
 Definition batch_get (c : client) (reqs : fmap (list item)) : client * obs :=
   match flavour with
